@@ -110,6 +110,20 @@ def build_transforms(tf, warmed=True):
     return TransformDict(real)
 
 
+def other_poses(rng, ego, k=2):
+    """k ego poses different from `ego` (a moving ego: the poses a long-lived registry served before the one under test)"""
+    pool = [q for q in ALL_POSES if q is not ego and q != ego]
+    return [dict(q) for q in rng.sample(pool, k)]
+
+
+def set_ego_pose(reg, pose):
+    """update the BASE_LINK -> MAP entry of a live registry in place (what interpolate_ground_truth_frames does with a copied frame)"""
+    from perception_eval.common.schema import FrameID
+    from perception_eval.common.transform import HomogeneousMatrix
+
+    reg[(FrameID.BASE_LINK, FrameID.MAP)] = HomogeneousMatrix(tuple(pose["pos"]), tuple(pose["quat"]), src=FrameID.BASE_LINK, dst=FrameID.MAP)
+
+
 def build_cfg_kwargs(cfg, rep=None):
     """rep (optional): {"bounds": "tuple" | "ndarray" | "int", "ignore": "tuple", "extra": True} -- the same parameters in other REPRESENTATIONS:
     per-label bound lists as tuples / numpy arrays / with Python ints where integral, the ignore list as a tuple, and the manager's extra
@@ -325,9 +339,14 @@ def gen_obj(rng, frame, ego, is_gt, family="autoware", cam=None):
     ex, ey = lat(rng, -24, 24), lat(rng, -12, 12)
     if rng.random() < 0.3:
         ex, ey = float(rng.choice([-10, -5, 5, 10, 0])), float(rng.choice([-5, 5, 0, 3, 4]))
+    edge = rng.random()
+    if edge < 0.04:
+        ex, ey = 0.0, 0.0          # exactly at the ego: planar distance 0 (decides a min-distance bound of exactly 0)
+    elif edge < 0.07:
+        ex, ey = rng.choice([(0.0, ey), (ex, 0.0)])      # on an axis: |x| or |y| exactly 0
     d = {"family": family, "label": lab, "name": rng.choice(NAMES[lab]),
          "attrs": rng.sample(ATTRS, rng.choice([0, 0, 1, 2])),
-         "conf": (1.0 if rng.random() < 0.8 else rng.randint(0, 64) / 64.0) if is_gt else rng.randint(0, 64) / 64.0,
+         "conf": (1.0 if rng.random() < 0.8 else rng.randint(0, 64) / 64.0) if is_gt else (rng.randint(0, 64) / 64.0 if rng.random() < 0.94 else 0.0),
          "uuid": rng.choice(UUIDS + [None]) if is_gt else rng.choice([None, "a", "zz"]),
          "pts": (rng.choice([0, 1, 2, 3, 5, 10]) if rng.random() < 0.95 else None) if is_gt else rng.choice([None, 0, 7])}
     if frame == "cam":
@@ -421,6 +440,8 @@ def gen_cfg(rng, objs_facts, stream):
     if rng.random() < 0.4:
         cfg["ignore"] = rng.choice([[], ["cycle_state.without_rider"], ["vehicle_state.parked", "sitting"], ["child"],
                                     ["vehicle."], [""], ["occlusion_state.most", "debris"], ["state"]])
+    if stream in ("typical", "boundary", "traffic") and rng.random() < 0.16:
+        zero_bound(rng, cfg, n, objs_facts)
     if stream == "boundary":
         r = rng.random()
         if r < 0.08:
@@ -447,6 +468,37 @@ def gen_cfg(rng, objs_facts, stream):
                 cfg[k] = cfg[k][:rng.randint(0, len(cfg[k]) - 1)] if len(cfg[k]) > 1 or rng.random() < 0.5 else cfg[k]
         # else: only a ground truth without point count (generated by gen_obj) makes it malformed
     return cfg
+
+
+def zero_bound(rng, cfg, n, objs_facts=()):
+    """NUMERIC EDGE: one per-label bound of exactly 0 (falsy but valid: |x| < 0 / d < 0 hold for nothing, d > 0 for everything but the ego
+    position itself, score > 0 for everything but a score of exactly 0).  In half of the cases every OTHER bound of that label becomes
+    permissive, so that the zero alone decides about the objects of that label."""
+    keys = [k for k in ("max_x", "max_y", "max_dist", "min_dist", "conf") if cfg.get(k)]
+    if not keys:
+        k = rng.choice(["max_x", "max_dist", "min_dist", "conf"])
+        cfg[k] = [rng.choice([5.0, 10.0, 0.5]) for _ in range(n)]
+        keys = [k]
+    k = rng.choice(keys)
+    j = rng.randrange(n)
+    # prefer the label of an object that sits exactly on the zero (at the ego position / with a score of exactly 0): the only objects for
+    # which `> 0` and "no bound" differ
+    lids = [label_id(_label_enum(a, b)) for a, b in cfg["targets"]]
+    on_zero = [lids.index(f["lid"]) for f in objs_facts if f["lid"] in lids
+               and ((k == "min_dist" and f["pos"] is not None and f["pos"][2] == 0) or (k == "conf" and f["conf"] == 0))]
+    sharp = bool(on_zero) and k in ("min_dist", "conf")
+    if sharp:
+        j = rng.choice(on_zero)
+        cfg.pop("uuids", None)
+        cfg.pop("ignore", None)
+    cfg[k][j] = 0.0
+    cfg["zero_bound"] = [k, j]
+    if sharp or rng.random() < 0.5:
+        for k2, v in (("max_x", 100.0), ("max_y", 100.0), ("max_dist", 100.0), ("min_dist", 0.0), ("conf", 0.0)):
+            if k2 != k and cfg.get(k2):
+                cfg[k2][j] = v
+        if cfg.get("min_pts"):
+            cfg["min_pts"][j] = 0
 
 
 def widen(rng, cfg):
@@ -513,6 +565,10 @@ class FilterObjectsCorr(Corr):
             if cam is not None and is_gt:
                 cfg.pop("min_pts", None)          # 2D objects have no point count: a point-count bound is not a configuration for them
             case = {"frame": frame, "tf": tf, "is_gt": is_gt, "objs": objs, "cfg": cfg, "stream": stream}
+            if frame == "map" and tf is not None and rng.random() < 0.4:
+                # ACCUMULATION: ONE registry instance serves three frames of a moving ego -- the SAME objects are first filtered under two
+                # other ego poses (same parameters), the entry is updated in place each time; only the pose of the last call may count
+                case["seq"] = other_poses(rng, ego)
             if cfg_well_formed(cfg):
                 case["wide"] = widen(rng, cfg)
             case["rep"] = {"bounds": rng.choice(["tuple", "ndarray", "int", None, None, None]), "ignore": rng.choice(["tuple", None]), "extra": rng.random() < 0.15}
@@ -528,6 +584,14 @@ class FilterObjectsCorr(Corr):
         kw = build_cfg_kwargs(case["cfg"], case.get("rep"))
         kw_before = repr(kw)
         before = fingerprint(objs)
+        if case.get("seq"):
+            for pose in case["seq"]:
+                set_ego_pose(transforms, pose)
+                try:
+                    filter_objects(objs, case["is_gt"], transforms=transforms, **kw)
+                except (TypeError, IndexError):
+                    pass
+            set_ego_pose(transforms, case["tf"])
         reg_before = registry_fingerprint(transforms)
         ids_before = [id(o) for o in objs]
         index = {id(o): i for i, o in enumerate(objs)}
@@ -622,10 +686,25 @@ class FilterObjectsCorr(Corr):
         d = {"frames": {}, "streams": {}, "errors": {}, "n_objects": 0, "n_kept": 0, "on_bound_objects": 0,
              "mean_mode_objects": 0, "fp_label_objects": 0, "no_position_objects": 0, "with_wide_cfg": 0,
              "tilted_ego_pose_cases": 0, "objects_2d_with_3d_position": 0, "mixed_frame_lists": 0, "position_representations": {},
-             "bound_list_representations": {}, "ignore_list_as_tuple": 0, "extra_manager_keys_passed": 0}
+             "bound_list_representations": {}, "ignore_list_as_tuple": 0, "extra_manager_keys_passed": 0,
+             "cases_with_a_bound_of_exactly_0": {}, "objects_decided_by_a_bound_of_exactly_0": {}, "objects_at_the_ego_position": 0,
+             "estimates_with_confidence_0": 0, "one_registry_served_two_other_ego_poses_first": 0}
         for c, o in zip(cases, obs):
             if "facts" not in o:
                 continue
+            d["one_registry_served_two_other_ego_poses_first"] += bool(c.get("seq"))
+            d["objects_at_the_ego_position"] += sum(1 for x in c["objs"] if x.get("ego_xy") == [0.0, 0.0])
+            d["estimates_with_confidence_0"] += sum(1 for x in c["objs"] if not c["is_gt"] and x["conf"] == 0.0)
+            for k in ("max_x", "max_y", "max_dist", "min_dist", "conf"):
+                if c["cfg"].get(k) and any(v == 0 for v in c["cfg"][k]) and cfg_well_formed(c["cfg"]) and isinstance(o["kept"], list):
+                    d["cases_with_a_bound_of_exactly_0"][k] = d["cases_with_a_bound_of_exactly_0"].get(k, 0) + 1
+                    lifted = dict(c["cfg"], **{k: [v if v != 0 else (-1.0 if k in ("min_dist", "conf") else 1e9) for v in c["cfg"][k]]})
+                    try:
+                        n_dec = sum(1 for f in o["facts"] if doc_keep(f, c["cfg"], c["is_gt"], c["tf"] is not None)
+                                    != doc_keep(f, lifted, c["is_gt"], c["tf"] is not None))
+                    except Exception:
+                        n_dec = 0
+                    d["objects_decided_by_a_bound_of_exactly_0"][k] = d["objects_decided_by_a_bound_of_exactly_0"].get(k, 0) + n_dec
             key = c["frame"] + ("+tf" if c["tf"] is not None else "") + ("+cam" if (c["tf"] or {}).get("cam") else "")
             d["tilted_ego_pose_cases"] += c["frame"] == "map" and c["tf"] is not None and any(v != 0 for v in c["tf"]["quat"][1:3])
             d["objects_2d_with_3d_position"] += sum(1 for x in c["objs"] if c["frame"] == "cam" and x.get("pos") is not None)
@@ -699,10 +778,15 @@ class FilterResultsCorr(Corr):
                 else:
                     pairs.append([e, None])
             rng.shuffle(pairs)
+            if rng.random() < 0.25:
+                # ORDER: every result WITHOUT a ground truth is listed before the first result with one
+                pairs.sort(key=lambda p: p[1] is not None)
             transforms = build_transforms(tf)
             facts = [object_facts(build_object(d, frame), transforms) for d in ests + gts]
             cfg = gen_cfg(rng, [f for f in facts if f["pos"] is not None], stream)
             case = {"frame": frame, "tf": tf, "ests": ests, "gts": gts, "pairs": pairs, "cfg": cfg, "stream": stream}
+            if frame == "map" and rng.random() < 0.4:
+                case["seq"] = other_poses(rng, ego)        # one registry, three ego poses in turn (see FilterObjectsCorr)
             if cfg_well_formed(cfg):
                 case["wide"] = widen(rng, cfg)        # the same results under widened bounds: nothing kept may be lost
             case["rep"] = {"bounds": rng.choice(["tuple", "ndarray", "int", None, None, None]), "ignore": rng.choice(["tuple", None]), "extra": rng.random() < 0.15}
@@ -726,6 +810,15 @@ class FilterResultsCorr(Corr):
         index = {id(r): i for i, r in enumerate(results)}
         fresh = build_transforms(case["tf"], warmed=False)
         obs = {"est_facts": [object_facts(o, fresh) for o in ests], "gt_facts": [object_facts(o, fresh) for o in gts]}
+        if case.get("seq"):
+            for pose in case["seq"]:
+                set_ego_pose(transforms, pose)
+                try:
+                    filter_object_results(results, transforms=transforms, **kw)
+                except (TypeError, IndexError):
+                    pass
+            set_ego_pose(transforms, case["tf"])
+            reg_before = registry_fingerprint(transforms)
         try:
             kept = filter_object_results(results, transforms=transforms, **kw)
         except (TypeError, IndexError) as e:
@@ -831,10 +924,16 @@ class FilterResultsCorr(Corr):
 
     def distribution(self, cases, obs):
         d = {"frames": {}, "errors": {}, "results": 0, "kept": 0, "with_gt": 0, "dropped_for_gt_only": 0, "gtless_dropped_by_uuid": 0,
-             "with_wide_cfg": 0, "kept_more_under_wide_cfg": 0, "tilted_ego_pose_cases": 0, "other_parameter_representations": 0}
+             "with_wide_cfg": 0, "kept_more_under_wide_cfg": 0, "tilted_ego_pose_cases": 0, "other_parameter_representations": 0,
+             "every_gtless_result_listed_before_the_first_result_with_gt": 0, "one_registry_served_two_other_ego_poses_first": 0,
+             "cases_with_a_bound_of_exactly_0": 0}
         for c, o in zip(cases, obs):
             if "est_facts" not in o:
                 continue
+            gl = [g is None for _, g in c["pairs"]]
+            d["every_gtless_result_listed_before_the_first_result_with_gt"] += any(gl) and not all(gl) and gl == sorted(gl, reverse=True)
+            d["one_registry_served_two_other_ego_poses_first"] += bool(c.get("seq"))
+            d["cases_with_a_bound_of_exactly_0"] += any(c["cfg"].get(k) and any(v == 0 for v in c["cfg"][k]) for k in ("max_x", "max_y", "max_dist", "min_dist", "conf"))
             d["with_wide_cfg"] += isinstance(o.get("wide_kept"), list)
             d["kept_more_under_wide_cfg"] += isinstance(o.get("wide_kept"), list) and isinstance(o.get("kept"), list) and len(o["wide_kept"]) > len(o["kept"])
             d["tilted_ego_pose_cases"] += c["tf"] is not None and not c["tf"].get("empty") and any(v != 0 for v in c["tf"]["quat"][1:3])
@@ -926,7 +1025,9 @@ class ManagerCorr(Corr):
 
             def pick(vals, lo, hi):
                 r = rng.random()
-                return rng.choice(vals) if r < 0.45 else rng.choice(vals) + rng.choice([-0.125, 0.125]) if r < 0.6 else lat(rng, lo, hi)
+                if r < 0.1:
+                    return rng.choice([0.0, 0])      # a bound of exactly 0 (falsy but valid; `min_distance: 0.0` is the usual setting)
+                return rng.choice(vals) if r < 0.5 else rng.choice(vals) + rng.choice([-0.125, 0.125]) if r < 0.64 else lat(rng, lo, hi)
 
             def scalar_or_list(f):
                 return f() if rng.random() < 0.6 else [f() for _ in MGR_TARGETS]
@@ -949,7 +1050,12 @@ class ManagerCorr(Corr):
                                                         ["occlusion_state.most", "debris"], ["state"]])
             if rng.random() < 0.3:
                 over["max_matchable_radii"] = rng.choice([2.5, [2.5, 1.5, 1.5, 2.5]])
-            out.append({"frame": frame, "tf": tf, "gts": gts, "ests": ests, "over": over})
+            case = {"frame": frame, "tf": tf, "gts": gts, "ests": ests, "over": over}
+            if i % 2 == 1 and not tf.get("empty"):
+                # ACCUMULATION: the manager has ALREADY evaluated two frames of the same scene under two other ego poses (fresh copies of the
+                # objects, the frame's own transforms) before the frame under test: only the current frame's pose may count
+                case["warm"] = other_poses(rng, tf)
+            out.append(case)
         return out
 
     def run_impl(self, case):
@@ -970,6 +1076,10 @@ class ManagerCorr(Corr):
             gt_list, est_list = frame_gt.objects, list(ests)
             before = fingerprint(gts + ests)
             wide = MC.critical_cfg(mgr, {"max_x_position_list": [100000.0] * 4, "max_y_position_list": [100000.0] * 4})
+            for k, pose in enumerate(case.get("warm", [])):
+                wm = [HomogeneousMatrix(tuple(pose["pos"]), tuple(pose["quat"]), src=FrameID.BASE_LINK, dst=FrameID.MAP)]
+                wf = FrameGroundTruth(80 + 10 * k, str(k + 1), [build_object(d, case["frame"], 80 + 10 * k) for d in case["gts"]], transforms=wm)
+                mgr.add_frame_result(80 + 10 * k, wf, [build_object(d, case["frame"], 80 + 10 * k) for d in case["ests"]], wide, MC.passfail_cfg(mgr, 1.0))
             r = mgr.add_frame_result(100, frame_gt, est_list, wide, MC.passfail_cfg(mgr, 1.0))
             gi = {id(o): i for i, o in enumerate(gts)}
             ei = {id(o): i for i, o in enumerate(ests)}
@@ -1037,10 +1147,13 @@ class ManagerCorr(Corr):
 
     def distribution(self, cases, obs):
         d = {"frames": {}, "keys": {}, "gt": 0, "gt_kept": 0, "est": 0, "est_in_results": 0, "results_with_gt": 0, "gtless_results_dropped_by_uuid_filter": 0,
-             "scalar_bounds": 0, "per_label_bounds": 0}
+             "scalar_bounds": 0, "per_label_bounds": 0, "manager_evaluated_two_frames_under_other_ego_poses_first": 0, "bounds_of_exactly_0": 0}
         for c, o in zip(cases, obs):
             if "gt_kept" not in o:
                 continue
+            d["manager_evaluated_two_frames_under_other_ego_poses_first"] += bool(c.get("warm"))
+            d["bounds_of_exactly_0"] += sum(1 for k, v in c["over"].items() if k in ("max_x_position", "max_y_position", "max_distance", "min_distance", "confidence_threshold")
+                                            and v is not None and (v == 0 if not isinstance(v, list) else any(x == 0 for x in v)))
             d["frames"][c["frame"]] = d["frames"].get(c["frame"], 0) + 1
             for k, v in c["over"].items():
                 if v is not None:
@@ -1101,6 +1214,23 @@ REGRESSION_OBJECTS = [
     {"frame": "map", "tf": None, "is_gt": True, "stream": "regression",
      "objs": [_o("car", (110.0, -50.0, 0.0), 1.0, "a", 0), _o("car", (1.0, 1.0, 0.0), 1.0, "a", 0), _o("bus", (1.0, 1.0, 0.0), 1.0, "a", 0)],
      "cfg": {"targets": [("autoware", "car")], "max_x": [10.0], "max_y": [5.0], "min_pts": [5]}},
+    # bounds of exactly 0 (falsy but valid): min distance 0 drops only the object AT the ego position (d > 0 fails), a confidence threshold of 0
+    # drops only a score of exactly 0, max x / max distance 0 drop everything of that label; the other label keeps its ordinary bound
+    {"frame": "base_link", "tf": None, "is_gt": False, "stream": "regression",
+     "objs": [_o("car", (0.0, 0.0, 0.0)), _o("car", (0.125, 0.0, 0.0)), _o("pedestrian", (0.0, 0.0, 1.0)), _o("pedestrian", (3.0, 4.0, 0.0)),
+              _o("car", (0.0, -0.125, 0.0), conf=0.0), _o("car", (1.0, 1.0, 0.0), conf=0.015625), _o("pedestrian", (1.0, 1.0, 0.0), conf=0.0)],
+     "cfg": {"targets": _T2, "max_dist": [10.0, 10.0], "min_dist": [0.0, 0.0], "conf": [0.0, 0.0]},
+     "wide": {"targets": _T2, "max_dist": [10.0, 10.0], "min_dist": [0.0, 0.0], "conf": [0.0, 0.0]}, "rep": {"bounds": "int"}},
+    {"frame": "map", "tf": EGO_POSES[2], "is_gt": True, "stream": "regression",
+     "objs": [_o("car", (12.5, 40.25, 1.0), 1.0, "a", 3), _o("car", (12.5, 40.375, 1.0), 1.0, "a", 3), _o("pedestrian", (12.5, 40.25, 0.5), 1.0, "a", 3)],
+     "cfg": {"targets": _T2, "max_dist": [10.0, 10.0], "min_dist": [0.0, 2.0]}},
+    {"frame": "base_link", "tf": None, "is_gt": False, "stream": "regression",
+     "objs": [_o("car", (1.0, 0.0, 0.0)), _o("car", (0.0, 1.0, 0.0)), _o("pedestrian", (1.0, 0.0, 0.0)), _o("pedestrian", (0.0, 0.0, 0.0)),
+              _o("unknown", (2.0, 0.0, 0.0)), _o("unknown", (6.0, 0.0, 0.0))],
+     "cfg": {"targets": _T2, "max_x": [0.0, 10.0], "max_y": [10.0, 0.0]}},
+    {"frame": "base_link", "tf": None, "is_gt": True, "stream": "regression",
+     "objs": [_o("car", (1.0, 0.0, 0.0), 1.0, "a", 3), _o("pedestrian", (1.0, 0.0, 0.0), 1.0, "a", 3), _o("car", (0.0, 0.0, 0.0), 1.0, "a", 3)],
+     "cfg": {"targets": _T2, "max_dist": [0.0, 10.0], "min_dist": [0.0, 0.0]}, "rep": {"bounds": "int"}},
     # malformed: bounds without targets / short list / estimate judged against the mean bound still works
     {"frame": "base_link", "tf": None, "is_gt": False, "stream": "regression", "objs": [_o("car", (1.0, 0.0, 0.0))],
      "cfg": {"targets": None, "max_x": [10.0]}},
@@ -1136,7 +1266,7 @@ class C10(Prop):
     id = "C10"
     props_file = "Props/C10.v"
     # redundant tie (core.gen_tie): these decision functions, translated from the source on every run, equal the hand model for all inputs
-    gen_tie_theorems = ['GenTie_is_target_object', 'GenTie_filter_objects', 'GenTie_filter_object_results']
+    gen_tie_theorems = ['GenTie_is_target_object', 'GenTie_filter_objects', 'GenTie_filter_object_results', 'GenTieSrc_C10_filter_sublist', 'GenTieSrc_C10_filter_idempotent', 'GenTieSrc_C10_filter_results_sublist_idempotent', 'GenTieSrc_C10_filter_monotone_in_bounds', 'GenTieSrc_C10_fp_label_always_kept']
     gen_files = []
     design_ref = "DESIGN.md section 4, C10"
     technique = ("Rocq proof that the sequential model of _is_target_object (code order, early exits, per-label lookups, mean bounds, "
@@ -1162,7 +1292,13 @@ class C10(Prop):
             "TransformDict fingerprinted before / after in both filters; manager_filter: 48 (quick) / 500 real managers whose OWN configuration binds (max_x/max_y or "
             "max/min distance as scalar or per-label list, min_point_numbers, confidence_threshold, ignore_attributes, target_uuids, max_matchable_radii) run add_frame_result "
             "under a critical filter that removes nothing: the ground truths and estimates reaching matching must be the documented selection, with target_uuids no result "
-            "without a targeted ground truth remains, the caller's frame / lists are unchanged")
+            "without a targeted ground truth remains, the caller's frame / lists are unchanged; "
+            "16% of the typical / boundary / traffic configurations carry one per-label bound of EXACTLY 0 (max x / y / distance, min distance, confidence; float 0.0 or int 0), in half of "
+            "them with every other bound of that label permissive, preferring the label of an object that sits on the zero (4% of the objects are at the ego position, 3% on an axis, 6% of the "
+            "estimates have confidence 0); 4 regression inputs hit every zero bound with equality and a neighbour; "
+            "40% of the map-frame cases filter the SAME objects through ONE registry under two other ego poses first (entry updated in place: three frames of a moving ego), both filters; "
+            "a quarter of the filter_object_results cases list every result without ground truth before the first result with one; "
+            "half of the manager cases evaluate two frames under other ego poses on the same manager (and the same critical / pass-fail config instances) first; 10% of the manager's scalar / per-label bounds are exactly 0")
     assumptions = ["well-formed parameters for the exact characterisation (every per-label list as long as a non-empty target list)",
                    "ground truth carries a point count when a point-count bound is configured",
                    "np.mean of the bound list = exact rational mean (inputs on the k/8 lattice)"]
